@@ -85,6 +85,8 @@ where
 			);
 		};
 
+		#[cfg(xt_verif)]
+		crate::verif::emit("parser_new", 0, 0, 0);
 		Parser { parser, read_state }
 	}
 
@@ -147,6 +149,8 @@ where
 		// and unsound to expose it to a safe Read impl, so we need to bounce
 		// reads through a buffer we control.
 		read_state.bouncer.resize(buffer_size, 0);
+		#[cfg(xt_verif)]
+		crate::verif::emit("rh_enter", buffer_size as u64, read_state.bouncer.len() as u64, 0);
 
 		match read_state.reader.read(&mut read_state.bouncer[..]) {
 			Ok(read_len) if read_len <= buffer_size => {
@@ -173,6 +177,8 @@ where
 				// As far as the *size_read write, we're again trusting libyaml
 				// to pass valid arguments. Note that libyaml's EOF condition is
 				// the same as Rust's: report a successful 0 byte read.
+				#[cfg(xt_verif)]
+				crate::verif::emit("rh_copy", read_len as u64, buffer_size as u64, read_state.bouncer.len() as u64);
 				unsafe {
 					ptr::copy_nonoverlapping(read_state.bouncer.as_ptr(), buffer, read_len);
 					*size_read = read_len as u64;
@@ -181,10 +187,14 @@ where
 				READ_SUCCESS
 			}
 			Ok(_) => {
+				#[cfg(xt_verif)]
+				crate::verif::emit("rh_misbehaving", buffer_size as u64, 0, 0);
 				read_state.error = Some(io::Error::new(io::ErrorKind::Other, "misbehaving reader"));
 				READ_FAILURE
 			}
 			Err(err) => {
+				#[cfg(xt_verif)]
+				crate::verif::emit("rh_error", 0, 0, 0);
 				read_state.error = Some(err);
 				READ_FAILURE
 			}
@@ -203,7 +213,11 @@ where
 		// the parser before the read state, so it should have no chance to
 		// access freed read state memory.
 		unsafe {
+			#[cfg(xt_verif)]
+			crate::verif::emit("parser_delete", 0, 0, 0);
 			yaml_parser_delete(&mut *self.parser);
+			#[cfg(xt_verif)]
+			crate::verif::emit("readstate_free", 0, 0, 0);
 			drop(Box::from_raw(self.read_state));
 		}
 	}
@@ -219,8 +233,12 @@ impl Event {
 		// simply drop the MaybeUninit when we return the error.
 		unsafe {
 			if yaml_parser_parse(parser, event.as_mut_ptr()).ok {
+				#[cfg(xt_verif)]
+				crate::verif::emit("event_new", 0, 0, 0);
 				Ok(Event(event.assume_init()))
 			} else {
+				#[cfg(xt_verif)]
+				crate::verif::emit("event_fail", 0, 0, 0);
 				Err(ParserError::new(parser))
 			}
 		}
@@ -244,6 +262,8 @@ impl Drop for Event {
 		// SAFETY: Event::parse_next returns an error if libyaml fails to
 		// initialize the event, so we know it's logically valid here.
 		unsafe {
+			#[cfg(xt_verif)]
+			crate::verif::emit("event_delete", 0, 0, 0);
 			yaml_event_delete(&mut self.0);
 		};
 	}
